@@ -72,6 +72,11 @@ class ApiRun:
             probs = self.problems(case, r, m)
             if probs:
                 self.failures.append((case, probs))
+            if r.get("err") == "DidNotTerminate":
+                # each such case costs the whole time limit: two witnesses are enough, stop exploring
+                self.timeouts = getattr(self, "timeouts", 0) + 1
+                if self.timeouts >= 2:
+                    break
         self.report()
 
     @staticmethod
@@ -94,12 +99,18 @@ class ApiRun:
                 if k in case:
                     c[k] = case[k]
             if i == 0 and not case.get("noshrink"):
+                slow = "DidNotTerminate" in probs[0]
+                saved_limit = D.REAL_LIMIT_S
+                if slow:
+                    D.REAL_LIMIT_S = 3.0
                 try:
-                    p2, o2 = shrink.shrink_case(case["parts"], case["options"], self.fails(case, self.signature(probs[0])), budget=250)
+                    p2, o2 = shrink.shrink_case(case["parts"], case["options"], self.fails(case, self.signature(probs[0])), budget=40 if slow else 250)
                     c["parts"], c["options"] = p2, o2
                     c["shrunk"] = True
                 except Exception as e:  # keep the unshrunk case
                     c["shrink_error"] = repr(e)
+                finally:
+                    D.REAL_LIMIT_S = saved_limit
             self.out.violation("; ".join(probs)[:1500], c)
         self.failures = []
 
